@@ -41,6 +41,17 @@ MAXANS = 60
 PER_JOB = 400
 TMO_MS = 2500          # a limited query normally takes < 5 ms; the limit 10^6 on loop/0 about 100 ms
 WORKERS = 6
+_T0 = [0.0]
+
+
+def _tick(what):
+    import sys
+    import time
+    if os.environ.get("C40_DEBUG"):
+        now = time.time()
+        sys.stderr.write("[C40 %7.1fs] %s\n" % (now - (_T0[0] or now), what))
+        if not _T0[0]:
+            _T0[0] = now
 
 
 # ------------------------------------------------------------------------------------------------
@@ -81,7 +92,7 @@ class Goal:
         self.ipos = []
         self.runs = []          # [{"lim", "items", "end", "ball"}] in execution order
         self.by_lim = {}        # lim -> first observation (exploration only)
-        self.timeouts = 0
+        self.bad = 0            # runs that ended in a timeout or a panic
         self.keep = set()
         self.vec = None
         self.total = None
@@ -92,15 +103,15 @@ class Goal:
         return "call_with_inference_limit(%s, %d, %s)." % (self.text, lim, ROUT)
 
     def dead(self):
-        return self.timeouts >= 3
+        return self.bad >= BAD_CAP
 
     def observe(self, lim, res):
         """project one harness result to the run record of InferLimit.tla"""
         items, end, ball = [], "stop", ""
         if res is None or "crash" in res:
-            end = "panic"
+            end, ball = "panic", "harness worker died: %s" % (res or {}).get("crash")
         elif "panic" in res:
-            end = "panic"
+            end, ball = "panic", str(res["panic"])
         else:
             for a in res.get("a", []):
                 if a == "F":
@@ -134,8 +145,8 @@ class Goal:
             elif res.get("capped"):
                 end = "other"
         run = {"lim": lim, "items": items, "end": end, "ball": ball}
-        if end == "timeout":
-            self.timeouts += 1
+        if end in ("timeout", "panic"):
+            self.bad += 1
         self.runs.append(run)
         self.by_lim.setdefault(lim, json.dumps([items, end, ball]))
         return run
@@ -196,31 +207,50 @@ def build(vecs):
 # execution
 # ------------------------------------------------------------------------------------------------
 
+BAD_CAP = 3            # after this many timeouts/panics of one goal in one batch its remaining queries are not run
+
+
 def run_queries(prog, qlist, measure=False):
-    """qlist: [(key, query text)].  Returns key -> harness result (with "_infer" when measure).  A query that times out or
-    panics costs the session: the queries after it in the same job are re-queued."""
+    """qlist: [(key, query text, lane, risky)].  Returns key -> harness result (with "_infer" when measure) or
+    {"skipped": True}.  A query that times out or panics costs the session: the queries after it in the same job are
+    re-queued.  Queries of a risky lane (a goal that may hang or panic) run in a job of their own; a lane that produced
+    BAD_CAP bad results is not continued."""
     out = {}
     pending = list(qlist)
-    per_job = PER_JOB
+    bad = {}
+    risky = {lane for _, _, lane, r in qlist if r}
     rounds = 0
     while pending:
         rounds += 1
-        if rounds > 200:
+        if rounds > 60:
             raise common.ToolError("C40: harness queries do not settle (%d pending)" % len(pending))
+        keep = []
+        for q in pending:
+            if bad.get(q[2], 0) >= BAD_CAP:
+                out[q[0]] = {"skipped": True}
+            else:
+                keep.append(q)
+        lanes = {}
+        safe = []
+        for q in keep:
+            if q[2] in risky:
+                lanes.setdefault(q[2], []).append(q)
+            else:
+                safe.append(q)
+        groups = [safe[bi:bi + PER_JOB] for bi in range(0, len(safe), PER_JOB)] + list(lanes.values())
         jobs, chunks = [], {}
-        for bi in range(0, len(pending), per_job):
-            chunk = pending[bi:bi + per_job]
+        for gi, chunk in enumerate(groups):
             steps = [{"consult": prog}]
-            for _, t in chunk:
+            for _, t, _, _ in chunk:
                 if measure:
                     steps.append({"infer": True})
                 steps.append({"q": t, "max": MAXANS, "tmo_ms": TMO_MS})
                 if measure:
                     steps.append({"infer": True})
-            jid = "r%d-%d" % (rounds, bi)
-            jobs.append({"id": jid, "fresh": True, "steps": steps, "timeout": 240})
+            jid = "r%d-%d" % (rounds, gi)
+            jobs.append({"id": jid, "fresh": True, "steps": steps, "timeout": 300})
             chunks[jid] = chunk
-        results = run_jobs(jobs, workers=WORKERS, job_timeout=240)
+        results = run_jobs(jobs, workers=WORKERS, job_timeout=300)
         nxt = []
         for job in jobs:
             chunk = chunks[job["id"]]
@@ -228,24 +258,28 @@ def run_queries(prog, qlist, measure=False):
             if "crash" in r:
                 if len(chunk) == 1:
                     out[chunk[0][0]] = {"crash": r["crash"]}
-                else:
+                    bad[chunk[0][2]] = bad.get(chunk[0][2], 0) + 1
+                else:       # find the culprit: every lane of the chunk gets its own job
                     nxt += chunk
-                    per_job = max(1, min(per_job, len(chunk) // 4))
+                    risky.update(q[2] for q in chunk)
                 continue
             res = r["res"]
             if not res or "ok" not in res[0]:
                 raise common.ToolError("C40: consulting the program failed: %s" % (str(res[:1])[:300]))
             stride = 3 if measure else 1
-            for i, (key, _) in enumerate(chunk):
+            for i, (key, _, lane, _) in enumerate(chunk):
                 j = 1 + i * stride + (1 if measure else 0)
                 if j >= len(res):
                     nxt += chunk[i:]
                     break
                 x = res[j]
-                if measure and not x.get("tmo") and "infer" in res[j - 1] and j + 1 < len(res) and "infer" in res[j + 1]:
+                if (measure and not x.get("tmo") and "panic" not in x and "infer" in res[j - 1]
+                        and j + 1 < len(res) and "infer" in res[j + 1]):
                     x["_infer"] = res[j + 1]["infer"] - res[j - 1]["infer"]
                 out[key] = x
                 if x.get("tmo") or "panic" in x:
+                    bad[lane] = bad.get(lane, 0) + 1
+                    risky.add(lane)
                     nxt += chunk[i + 1:]
                     break
         pending = nxt
@@ -254,13 +288,16 @@ def run_queries(prog, qlist, measure=False):
 
 def execute(prog, goals, plan, measure=False):
     """plan: [(goal, lim)] executed in this order; observations are appended to the goals"""
-    ql = [((i, g.id, lim), g.query(lim)) for i, (g, lim) in enumerate(plan)]
+    ql = [((i, g.id, lim), g.query(lim), g.id, g.risky or g.bad > 0) for i, (g, lim) in enumerate(plan)]
     res = run_queries(prog, ql, measure)
     for i, (g, lim) in enumerate(plan):
         r = res.get((i, g.id, lim))
+        if r is not None and r.get("skipped"):
+            continue
         g.observe(lim, r)
-        if measure and r and "_infer" in r and lim >= BIG_DIV:
+        if measure and r and r.get("_infer", 0) > 0 and lim >= BIG_DIV:
             g.total = r["_infer"]
+    _tick("executed %d queries%s" % (len(plan), " (measuring)" if measure else ""))
 
 
 def explore(prog, goals, full_max):
@@ -304,8 +341,9 @@ def second_pass(prog, goals):
     plan = []
     for g in reversed(goals):
         lims = sorted(g.by_lim, reverse=True)
-        if g.dead():
-            lims = lims[:2]
+        if g.bad:           # repeat the runs that ended normally and one that did not
+            isbad = lambda l: '"timeout"' in g.by_lim[l] or '"panic"' in g.by_lim[l]
+            lims = [l for l in lims if not isbad(l)] + [l for l in lims if isbad(l)][-1:]
         plan += [(g, lim) for lim in lims]
     execute(prog, goals, plan)
 
@@ -320,7 +358,7 @@ def inner_limit(g, ipos):
     if ipos == "zero":
         return 0
     if ipos == "beyond":
-        return (cps[-1] if cps else 0) + 5
+        return (cps[-1] if cps else 0) + 60
     if not cps:
         return None
     if ipos == "first":
@@ -397,7 +435,8 @@ def signature(g, verdict):
     if any(r["end"] == "timeout" for r in g.runs):
         flag = " obs=timeout"
     elif any(r["end"] == "panic" for r in g.runs):
-        flag = " obs=panic"
+        msg = [r["ball"] for r in g.runs if r["end"] == "panic"][0]
+        flag = " obs=panic[%s]" % re.sub(r"/\S*/([^/:\s]+):\d+", r"\1", msg)
     if g.kind == "plain":
         return "plain %s goal=%s verdict=%s%s" % (g.id, g.label, verdict, flag)
     return "%s base=%s goal=%s ilim=%d inner=%s verdict=%s%s" % (
@@ -419,6 +458,7 @@ def outline(g, cap=14):
 def run(tier):
     rep = Report(PROP, tier, META["level"])
     quick = tier == "quick"
+    _tick("start")
     rep.rule = ("goals = catalogue families x sizes (0..4 quick, 0..7 thorough), their library twins, every one-clause program "
                 "p(X) :- Body of the C07 body grammar, and nested scenarios (shape nest/seq/loopseq x base goal x position of the "
                 "inner limit); per goal every limit 0..total+3 (full grid) or a grid refined by bisection until every change point "
@@ -427,8 +467,10 @@ def run(tier):
                 "goal ends, number of solutions) resp. (shape, base family, inner limit position, inner exceeded?)")
     law = tlc_ok(run_tlc("MC_C40", "MC_C40_law_%s.cfg" % tier, workers=4 if quick else 8, timeout=3000), "MC_C40 law")
     rep.add_tlc(law)
+    _tick("law checked")
     res, vecs = common.generate("MC_C40", "MC_C40_%s.cfg" % tier, workers=6 if quick else 8, timeout=3000)
     rep.add_tlc(res)
+    _tick("goals generated")
     prog, goals, templates = build(vecs)
     if not goals or not templates:
         raise common.ToolError("no goals generated")
@@ -456,8 +498,10 @@ def run(tier):
     with open(path, "w") as f:
         for e in events:
             f.write(json.dumps(e) + "\n")
+    _tick("trace written")
     tres, rej = validate(path, "trace of %d goals" % len(order))
     rep.add_tlc(tres)
+    _tick("trace validated")
 
     rejected_ids = {order[i - 1].id for i in rej}
     dependent = 0
